@@ -702,6 +702,62 @@ def combinator_programs():
     return out
 
 
+def smalldomain_programs():
+    """EVERY argument tuple over a small domain for the pure sequence / map builtins the Machine models: sequences of
+    length 0..4 (lists and vectors), every index from -1 to one past the end, both type specifiers, small ranges.  A fast
+    path for the common shape of an input shows here as soon as it mishandles a rare one (empty, single, index = length)."""
+    seqs = []
+    for n in range(0, 5):
+        items = [10 * (i + 1) for i in range(n)]
+        seqs.append([S("list")] + items if n else [])
+        seqs.append([S("vector")] + items)
+    seqs.append(Q([7, 8, 9]))
+    T = [Q(S("list")), Q(S("vector"))]
+    idx = list(range(-1, 6))
+    calls = []
+    for sq in seqs:
+        calls += [[S("length"), sq], [S("first"), sq], [S("second"), sq], [S("rest"), sq], [S("empty?"), sq], [S("reverse"), Q(S("list")), sq], [S("reverse"), Q(S("vector")), sq]]
+        calls += [[S("car"), sq], [S("cdr"), sq]]
+        for i in idx:
+            calls += [[S("nth"), sq, i], [S("aref"), sq, i]]
+            for t in T:
+                calls.append([S("insert-index"), t, sq, i, 99])
+                for j in idx:
+                    calls.append([S("slice"), t, sq, i, j])
+        for t in T:
+            calls += [[S("append"), t, sq], [S("append"), t, sq, 1], [S("append"), t, sq, 1, 2], [S("concat"), t, sq], [S("concat"), t, sq, sq], [S("concat"), t, sq, [], sq],
+                      [S("map"), t, S("inc"), sq], [S("select"), t, S("big?"), sq], [S("reject"), t, S("big?"), sq], [S("zip"), t, sq], [S("zip"), t, sq, Q([1, 2])], [S("zip"), t, sq, [S("vector"), 1], sq]]
+        calls += [[S("foldl"), S("sub"), 0, sq], [S("foldr"), S("sub"), 0, sq], [S("any?"), S("big?"), sq], [S("all?"), S("big?"), sq],
+                  [S("stable-sort"), S(">"), sq], [S("cons"), 0, sq], [S("equal?"), sq, sq], [S("equal?"), sq, Q([7, 8, 9])]]
+        for x in (5, 15, 25, 35, 45):
+            calls += [[S("insert-sorted"), Q(S("list")), sq, S("<"), x], [S("insert-sorted"), Q(S("vector")), sq, S("<"), x]]
+    for a in range(-2, 4):
+        for b in range(-2, 6):
+            calls.append([S("make-sequence"), a, b])
+            for st in (-2, -1, 0, 1, 2, 3):
+                calls.append([S("make-sequence"), a, b, st])
+    for n in range(-1, 7):
+        for k in range(-1, 8):
+            calls.append([S("search-sorted"), n, [S("lambda"), [S("i")], [S(">="), S("i"), k]]])
+    maps = [[S("sorted-map")], [S("sorted-map"), STR("a"), 1], [S("sorted-map"), STR("b"), 2, Q(S("a")), 1], [S("sorted-map"), STR("c"), 3, STR("a"), 1, Q(S("b")), 2]]
+    keys = [STR("a"), Q(S("a")), STR("b"), Q(S("c")), STR("z")]
+    for mp in maps:
+        calls += [[S("keys"), mp], [S("length"), mp], [S("empty?"), mp]]
+        for k in keys:
+            calls += [[S("get"), mp, k], [S("key?"), mp, k], [S("assoc"), mp, k, 9], [S("dissoc"), mp, k], [S("keys"), [S("assoc"), mp, k, 9]], [S("keys"), [S("dissoc"), mp, k]],
+                      [S("get-default"), mp, k, 77]]
+    for args in ([1], [1, 2], [2, 1, 3], [3, 3], [-1, 0], [2, 1.5], [1.5, 2, 0.5]):
+        calls += [[S("max")] + args, [S("min")] + args]
+    for a in range(-3, 4):
+        for b in (-2, -1, 1, 2, 3):
+            calls.append([S("mod"), a, b])
+    D = [[S("defun"), S("inc"), [S("n")], [S("+"), S("n"), 1]], [S("defun"), S("sub"), [S("p"), S("q")], [S("-"), S("p"), S("q")]], [S("defun"), S("big?"), [S("n")], [S(">"), S("n"), 15]]]
+    out = []
+    for k in range(0, len(calls), 40):
+        out.append(D + [[S("probe"), Q(S("r")), GUARD(c)] for c in calls[k:k + 40]])
+    return out
+
+
 def retain_programs():
     """every builtin that calls back into lisp, with a callback that KEEPS what it was given - its &rest list, or a
     closure over it - in an outer accumulator (or returns it); after the builtin has returned, every call's own arguments
@@ -797,6 +853,8 @@ def _run(V, work, tier):
         progs_.append(("combinator", f))
     for f in retain_programs():
         progs_.append(("retain", f))
+    for f in smalldomain_programs():
+        progs_.append(("small-domain", f))
     # the MIX family: every feature in one program (gen/mix.py)
     import mix
     for _ in range(1500 if thorough else 130):
